@@ -3,6 +3,7 @@ package dom
 import (
 	"encoding/hex"
 	"fmt"
+	"os"
 	"runtime/debug"
 	"strconv"
 	"strings"
@@ -23,6 +24,7 @@ import (
 //	                                      c = checker.CheckSource (parses again, expands macros, type checks, compiles)
 //	  -> `ok lex=<ntokens> parse=<ndiags> inc=<0|1> check=<ndiags>` (absent stages print `-`)
 //	   | `panic <stage> <message> @ <first elk frames>` | `timeout <stage>`
+//	fe<TAB>seq<TAB>stages<TAB>hex,hex,…      the inputs one after the other in this process; the answer of the last one
 //	fe<TAB>tokens                          probe-like: `ok id:name:typename,…` for every token type (names hex)
 func init() {
 	hx.RegisterExec("fe", execFe)
@@ -41,6 +43,17 @@ func execFe(f []string) string {
 			fmt.Fprintf(&sb, "%d:%s:%s", i, hx0(token.Type(i).Name()), tn)
 		}
 		return sb.String()
+	}
+	if len(f) == 3 && f[0] == "seq" {
+		// a sequence of inputs through ONE process (the checker keeps process-global state): the answer of the last one
+		ans := "ok -"
+		for _, h := range strings.Split(f[2], ",") {
+			ans = execFe([]string{"run", f[1], h})
+			if strings.HasPrefix(ans, "timeout") {
+				break
+			}
+		}
+		return ans
 	}
 	if len(f) != 3 || f[0] != "run" {
 		return "bad-op"
@@ -86,9 +99,36 @@ func withBudgetStack(d time.Duration, f func() string) string {
 	return withBudget(d, func() (out string) {
 		defer func() {
 			if r := recover(); r != nil {
-				out = "panic " + hx.PanicClass(r) + " @ " + firstFrames(debug.Stack())
+				out = "panic " + hx.PanicClass(r) + " @ " + lexrxFrames(debug.Stack())
 			}
 		}()
 		return f()
 	})
 }
+
+// first three elk frames below the panic, with receiver and method name kept
+func lexrxFrames(stack []byte) string {
+	var keep []string
+	for _, l := range strings.Split(string(stack), "\n") {
+		if !strings.HasPrefix(l, "github.com/elk-language/elk/") {
+			continue
+		}
+		l = strings.TrimPrefix(l, "github.com/elk-language/elk/")
+		if i := strings.LastIndex(l, "("); i > 0 {
+			l = l[:i]
+		}
+		l = strings.NewReplacer("(*", "", ")", "", "[...]", "").Replace(l)
+		keep = append(keep, l)
+		if len(keep) == lexrxFrameCount {
+			break
+		}
+	}
+	return strings.Join(keep, " < ")
+}
+
+var lexrxFrameCount = func() int {
+	if n, err := strconv.Atoi(os.Getenv("LEXRX_FRAMES")); err == nil && n > 0 {
+		return n
+	}
+	return 3
+}()
